@@ -297,11 +297,13 @@ add("c19_uci_promo_suffix", ["C19"], "experimental",
     ["ChessMove::to_uci", "to_algebraic", "alloc::fmt::format"], "all arguments concrete (core::fmt with symbolic &str arguments is not executable in CBMC: >10 GB measured); exhaustive over the promotion piece, squares fixed",
     module=AN, unwind=66, est_s=300)
 
-add("c02_wire_move_cache", ["C02"], "quick",
-    "MoveGenerator::generate_moves: the move cache is consulted and filled under the key (this position's key, colour asked about); a hit returns the stored list without generating; a miss generates for this board and colour and stores under the same key",
-    ["MoveGenerator::generate_moves"], "fully symbolic Disjoint board (symbolic key), symbolic colour, symbolic hit/miss",
-    stubs=[NOSPILL, "lru::LruCache::get / ::put -> recorders of the key (hit/miss chosen by the harness): the LRU's own hashing/eviction is outside the claim; generate_valid_moves -> marker list + argument record (its contract: the C01 stage harnesses)"],
-    module=MG, est_s=200, native=[])
+for hm in ["miss", "hit"]:
+    add(f"c02_wire_move_cache_{hm}", ["C02"], "quick",
+        f"MoveGenerator::generate_moves on a cache {hm}: the move cache is consulted under the key (this position's key, colour asked about); " +
+        ("a miss generates for this board and colour, stores the result under the same key and returns it" if hm == "miss" else "a hit returns the stored list without generating or storing"),
+        ["MoveGenerator::generate_moves"], "fully symbolic Disjoint board (symbolic key), symbolic colour; hit/miss concrete per harness",
+        stubs=[NOSPILL, "lru::LruCache::get / ::put -> recorders of the key (hit/miss chosen by the harness): the LRU's own hashing/eviction is outside the claim; generate_valid_moves -> marker list + argument record (its contract: the C01 stage harnesses)"],
+        module=MG, est_s=120, native=["lru_get", "lru_put", "gen_valid"])
 add("c02_wire_attack_cache", ["C02"], "quick",
     "MoveGenerator::get_attack_targets: the attack cache is consulted and filled under (colour asked about, this position's key); a hit is returned as is; a miss generates for this board and colour and stores the result",
     ["MoveGenerator::get_attack_targets"], "fully symbolic Disjoint board, symbolic colour, symbolic cached value / miss",
@@ -330,7 +332,7 @@ for col, cname in [("w", "White"), ("b", "Black")]:
         f"generate_attack_targets for {cname} with its four builders stubbed: each builder runs once for the requested colour, the attack map is the union of all target sets",
         ["Targets::generate_attack_targets"], "fully symbolic Disjoint board; symbolic builder outputs",
         stubs=[NOSPILL, "generate_pawn_attack_targets, Targets::generate_sliding_targets, Targets::generate_targets_from_precomputed_tables -> push one symbolic entry + record the colour; contracts: c01_pawn_attacks_*, c01_slider_*, c01_leaper_*"],
-        module=MG, est_s=60, native=[])
+        module=MG, est_s=60, native=["acache_get", "acache_put", "attack_targets"])
 
 def witness(name, props, module, desc, unwind=8, est_s=60):
     add(name, props, "quick", "vacuity witness: " + desc + "; same set-up as the obligations of this family, ends in assert!(false); must FAIL on exactly that assertion",
